@@ -681,11 +681,34 @@ def slinalg_inv(a):
         for i in _np.ndindex(*a.shape[:-2]):
             out[i] = _unview(slinalg_inv(a[i]))
         return wrap(out)
+    # clear a common denominator first: inv(N/D) = D adj(N)/det(N)
+    R = S.cur()
+    D = None
+    flat = [Sym.const(v) for v in a.reshape(-1)]
+    dens = []
+    for v in flat:
+        if not (v.d.is_ground and v.d.LC == 1):
+            if not any(v.d == q for q in dens):
+                dens.append(v.d)
+    if len(dens) == 1 and not dens[0].is_ground:
+        Dp = dens[0]
+        D = Sym(Dp, R.one)
+        N = _np.empty(a.shape, dtype=object)
+        for idx in _np.ndindex(*a.shape):
+            v = Sym.const(a[idx])
+            N[idx] = Sym(v.n, R.one) if v.d == Dp else v * D
+        a = N
     d = sdet_obj(a)
     if bool(mk_eq0(d)):
         raise _np.linalg.LinAlgError("Singular matrix")
+    if isinstance(d, Sym) and not d.is_const() and not S._has_i(d.n):
+        R.note_den_factor(d.n)
+        if D is not None:
+            R.note_den_factor(D.n)
     adj = sadj_obj(a)
     inv = S._div_nocheck(Sym.const(1), d)
+    if D is not None:
+        return _map(lambda v: (v * D) * inv, adj)
     return _map(lambda v: v * inv, adj)
 
 
